@@ -14,6 +14,9 @@ HARNESSES = (("activation_h", ["libdbus-daemon-internal.a"]),)
 THEOREMS = ["C19_ledger", "C19_one_fate", "C19_spawn_once", "C19_no_spawn_while_waiting", "C19_held_once_in_order",
             "C19_failure_each_waiter_once", "C19_timeout_each_waiter_once", "C19_exit_zero_ignored",
             "C19_failure_own_name_partial", "C19_failure_own_name_refuted", "C19_one_fate_refuted", "C19_unique_name_not_delivered",
+            "C19_reload_keeps_pending", "C19_held_once_in_order_across_reload",
+            "C19_exec_line_quoting", "C19_exec_unclosed_quote_refused",
+            "C19_table_is_first_valid", "C19_lookup_fresh", "C19_lookup_after_removal_refuted", "C19_table_accepts_unique_name",
             "C19_helper", "C19_helper_name_in_directory", "C19_helper_wellknown", "C19_helper_refuted", "C19_helper_total"]
 LEVEL = "proof"
 
@@ -69,11 +72,13 @@ def nontrivial_classes(events, mtoks):
             cl.add("fail-exec")
         if ev == "T" and any("TimedOut" in p for p in parts):
             cl.add("fail-timeout")
-        if ev[0] in "AS" and any("LimitsExceeded" in p for p in parts):
+        if ev[0] == "B" and any(p.startswith("sp.") for p in parts):
+            cl.add("signal-starts-service")
+        if ev[0] in "ABS" and any("LimitsExceeded" in p for p in parts):
             cl.add("limit")
-        if ev[0] in "AS" and any("InvalidArgs" in p for p in parts):
+        if ev[0] in "ABS" and any("InvalidArgs" in p for p in parts):
             cl.add("exec-does-not-parse")
-        if ev[0] == "A" and any("AccessDenied" in p for p in parts):
+        if ev[0] in "AB" and any("AccessDenied" in p for p in parts):
             cl.add("refused-at-activation")
         if ev[0] == "S" and any(":s." in p and p.endswith(".2") for p in parts):
             cl.add("already-running")
@@ -185,7 +190,13 @@ def run_parser_part(ctx, rnd):
         shells.append(b"a" + bytes([c]) + b"b")
         shells.append(b'"a\\' + bytes([c]) + b'b"')
         shells.append(b"a\\" + bytes([c]) + b"b")
-    lines = ["shell " + (s.hex() or "-") for s in shells] + ["desk " + (d.hex() or "-") for d in desks]
+    # C19_exec_line_quoting on the real parser: every argv comes back from its canonical quoting
+    quoted = {}
+    for _ in range(1500 if tier == "quick" else 40000):
+        argv = [bytes(rnd.choice([39, 39, 92, 34, 32, 10, 9, 35, 36, 96, 97, 98, 47, 255, 1, rnd.randint(1, 255)]) for _ in range(rnd.randint(0, 6))) for _ in range(rnd.randint(1, 4))]
+        line = b" ".join(b"'" + a.replace(b"'", b"'\\''") + b"'" for a in argv)
+        quoted["shell " + line.hex()] = "ok " + ",".join(a.hex() or "-" for a in argv)
+    lines = ["shell " + (s.hex() or "-") for s in shells] + list(quoted) + ["desk " + (d.hex() or "-") for d in desks]
     lines = list(dict.fromkeys(lines))
     ires, icr = vlib.run_lines(info["activation_h"], lines)
     mres, mcr = vlib.run_lines(info["model_activation"], lines)
@@ -201,6 +212,9 @@ def run_parser_part(ctx, rnd):
         raw = bytes.fromhex(l.split(" ")[1]) if l.split(" ")[1] != "-" else b""
         if (l.startswith("shell") and special & set(raw)) or (l.startswith("desk") and b"[" in raw and b"=" in raw):
             nontrivial += 1
+        if l in quoted and i != quoted[l] and i != "!CRASH":
+            rep.violation("_dbus_shell_parse_argv does not give back an argument vector from its canonical quoting: `%s` -> %s, expected %s" % (l[:200], i[:200], quoted[l][:200]),
+                          {"line": l, "impl": i, "expected": quoted[l], "theorem": "C19_exec_line_quoting"})
         if i != m and i != "!CRASH":
             diffs += 1
             if diffs <= 5:
@@ -208,6 +222,65 @@ def run_parser_part(ctx, rnd):
                               {"line": l, "impl": i, "model": m, "names": "Helper.shell_parse / Helper.desktop_load vs dbus-shell.c / desktop-file.c"},
                               found_input=True)
     return len(lines), diffs, outcome, nontrivial
+
+
+def run_cache_part(ctx, rnd):
+    """the bus's service-file cache: bus_activation_new / bus_activation_reload / activation_find_entry in-process (bus/activation.c is
+    compiled into the harness) on real directories, against Cache.reload / Cache.find_entry; every lookup is also judged by
+    Spec.ActivationSpecCache.spec_lookup on the files as they are"""
+    rep, tier, info = ctx["rep"], ctx["tier"], ctx["info"]
+    n = 2500 if tier == "quick" else 60000
+    cases = list(af.CACHE_FIXED) + [af.gen_cache_case(rnd) for _ in range(n)]
+    il = [af.cache_impl_line(c) for c in cases]
+    ires, icr = vlib.run_lines(info["activation_h"], il)
+    for l, e in icr:
+        rep.violation("harness activation_h crashed (sanitizer/assertion) in the service-file cache on: %s: %s" % (l[:300], e[-600:]), {"line": l, "stderr": e})
+    ml = [af.cache_model_line(c, r) if r != "!CRASH" else None for c, r in zip(cases, ires)]
+    idx = [i for i, m in enumerate(ml) if m]
+    mres, _ = vlib.run_lines(info["model_activation"], [ml[i] for i in idx])
+    sres, _ = vlib.run_lines(info["model_activation"], ["cachespec" + ml[i][len("cachem"):] for i in idx])
+    known = {k["id"]: k for k in load_known()}
+    stats = {"cases": len(cases), "compared": len(idx), "lookups": 0, "lookups_hit": 0, "reloads": 0, "stale_answers": 0, "diffs": 0, "nontrivial": 0}
+    for i, m, sp in zip(idx, mres, sres):
+        flags, ops = cases[i]
+        impl = af.cache_strip_order(ires[i])
+        if impl != m:
+            stats["diffs"] += 1
+            if stats["diffs"] <= 5:
+                rep.violation("service-file cache: model and bus/activation.c disagree on `%s`: implementation %s, model %s" % (il[i][:300], impl[:300], m[:300]),
+                              {"line": il[i], "model_line": ml[i], "impl": impl, "model": m, "names": "Cache.reload / Cache.find_entry vs bus_activation_reload / activation_find_entry"},
+                              found_input=True)
+            continue
+        # the specification's answer for every lookup, on the files as they are
+        results = [t.split("/")[0] for t in impl.split(" ")]
+        spec = sp.split(" ")
+        changed = False
+        k = 0
+        interesting = False
+        for op in ops:
+            if op[0] in "WRXM":
+                changed = True
+            elif op[0] == "L":
+                changed = False
+                stats["reloads"] += 1
+                k += 1
+            else:
+                stats["lookups"] += 1
+                if results[k] != "none":
+                    stats["lookups_hit"] += 1
+                    interesting = True
+                if results[k] != spec[k]:
+                    if changed and "F19.4" in known:
+                        stats["stale_answers"] += 1
+                        rep.known(known["F19.4"], {"line": il[i][:200], "lookup": op[1].decode("latin1"), "answer": results[k][:80], "specification": spec[k][:80]})
+                    else:
+                        rep.violation("activation_find_entry answers %s for %r where the first valid service file in search order is %s (%s)" % (
+                            results[k][:120], op[1], spec[k][:120], "files changed since the last reload, no finding recorded" if changed else "cache freshly built: C19_lookup_fresh says this cannot happen"),
+                            {"line": il[i], "lookup": op[1].hex(), "answer": results[k], "specification": spec[k]})
+                k += 1
+        if interesting:
+            stats["nontrivial"] += 1
+    return stats
 
 
 def run_helper_part(ctx, rnd):
@@ -324,6 +397,7 @@ def run(ctx):
     n_lines, pdiffs, poutcome, p_nontrivial = run_parser_part(ctx, rnd)
     t1 = time.time()
     n_helper, hdiffs, houtcome, hsamples = run_helper_part(ctx, rnd)
+    cstats = run_cache_part(ctx, rnd)
     t2 = time.time()
     res, stats, classes, dist, distinct = run_bus_part(ctx, rnd)
     t3 = time.time()
@@ -332,9 +406,10 @@ def run(ctx):
         if r["status"] == "agree":
             samples.append({"label": r["case"][0], "services": [list(s) for s in r["case"][2]], "events": " ".join(r["case"][4]), "daemon": " ".join(r["impl"])})
     rep.coverage.update({
-        "evaluations": len(res) + n_lines + n_helper,
-        "distinct_nontrivial": stats["nontrivial_distinct"] + houtcome.get("_reached_file_distinct", 0) + p_nontrivial,
-        "rule": "measured sum of three counts.  bus: %d distinct (configuration, event list) histories, %d of them non-trivial = daemon and model agreed and "
+        "evaluations": len(res) + n_lines + n_helper + cstats["cases"],
+        "distinct_nontrivial": stats["nontrivial_distinct"] + houtcome.get("_reached_file_distinct", 0) + p_nontrivial + cstats["nontrivial"],
+        "service_file_cache": cstats,
+        "rule": "measured sum of four counts (the fourth: service-file cache cases with at least one successful lookup; see service_file_cache).  bus: %d distinct (configuration, event list) histories, %d of them non-trivial = daemon and model agreed and "
                 "at least one step resolved, refused or failed an activation (classes reached: %s).  helper: %d distinct invocations in which the helper got as far "
                 "as a service file (any outcome but name-invalid / not-found).  parsers: %d distinct inputs containing quoting/comment/blank characters "
                 "(command lines) or a section header and a '=' (files).  outcome kinds: helper %s, parsers %s" % (
@@ -343,7 +418,7 @@ def run(ctx):
         "samples": samples[:8] + hsamples[:4],
         "input_distribution": {"bus_classes": dist, "bus_status": stats, "helper_outcomes": houtcome, "parser_outcomes": poutcome},
         "traces_validated_against_impl": stats["agree"], "steps_compared": stats["steps"],
-        "disagreements_checked": stats["differ"] + pdiffs + hdiffs, "flaky_histories_rerun": stats["flaky"], "aborted_histories": stats["aborted"],
+        "disagreements_checked": stats["differ"] + pdiffs + hdiffs + cstats["diffs"], "flaky_histories_rerun": stats["flaky"], "aborted_histories": stats["aborted"],
         "parser_cases": n_lines, "helper_invocations": n_helper,
         "wall": {"parsers": round(t1 - t0, 1), "helper": round(t2 - t1, 1), "bus": round(t3 - t2, 1)},
         "exhaustive": False,
